@@ -156,6 +156,9 @@ pub fn gen(ctx: &mut Ctx) {
         cfg = toks.join(" ");
         let sd = *ctx.rng.pick(&[1u32, 1_500_000_000, 1_600_000_000, 1_699_999_999]);
         let mut extra = format!(" sd={} now=1700000000{}", sd, if ctx.rng.chance(1, 2) { " sdlast" } else { "" });
+        // the same source date handed over as another argument type (SystemTime, DateTime in some zone): same package
+        let sdk = *ctx.rng.pick(&["u32", "u32", "st", "dt+0000", "dt+0200", "dt-0930", "dt+1400", "dt-1200"]);
+        if sdk != "u32" { extra.push_str(&format!(" sdk={}", sdk)); }
         let nown = ctx.rng.below(6);
         for k in 0..nown {
             let u = *ctx.rng.pick(&users);
